@@ -15,7 +15,8 @@ ID = 'C20'
 LEVEL = 'exploration'
 RULE = ('complete enumeration of 2^3 flags x 2^7 Feature subsets; item = one options value, compared against all 1024 '
         'values (eq/hash vs. the construction parameters), AST round trip, call_options, uses, spellings, and the '
-        'options expression embedded by a real conversion; non-trivial = every value (each is a distinct point of the '
+        'options expression embedded by a real conversion, followed by conversions of the same function under the 7 other flag '
+        'combinations and with each feature toggled (same transpiler: cache keys); non-trivial = every value (each is a distinct point of the '
         'finite space)')
 ASSUMPTIONS = ['reference semantics of an options value = the tuple of constructor parameters it was built from',
                'embedded-options half runs only for the 128 values FunctionScope accepts (no ALL/NAME_SCOPES/AUTO_CONTROL_DEPS)']
@@ -223,6 +224,27 @@ def check(item):
       r = cf(3)
       if r != 10:
         viol.append(V('embedded-run', 'converted function under options %r returned %r instead of 10' % (p, r), item))
+      # the same function converted again by the same transpiler under every neighbouring value (other flag
+      # combinations; one feature toggled): each conversion must embed its own options, whatever was cached before
+      allowed = [k for k, f in enumerate(_S['feats']) if f not in (F.ALL, F.NAME_SCOPES, F.AUTO_CONTROL_DEPS)]
+      neigh = [(i & ~7) | fl for fl in range(8) if fl != (i & 7)] + [i ^ (1 << (3 + k)) for k in allowed]
+      for j in neigh:
+        q, pq = vals[j], params(j)
+        expq = (pq[0], False, pq[0], pq[3])
+        _, mod2, _ = tr.transform(g['f'], conv.ProgramContext(options=q))
+        n['embedded_conversions'] += 1
+        n['evaluations'] += 1
+        exprs2 = scope_option_exprs(ast.parse(inspect.getsource(mod2)))
+        for k, (kind, e) in enumerate(exprs2[:2]):
+          val = eval(e, {'ag__': ag})  # pylint:disable=eval-used
+          wantp = pq if k == 0 else expq
+          gotp = (val.recursive, val.user_requested, val.internal_convert_user_code, frozenset(val.optional_features))
+          if gotp != wantp:
+            viol.append(V('embedded-differs-after-another-conversion', 'after converting the function under %r, converting it under %r embeds (scope %d) %r, expected %r' % (p, pq, k, gotp, wantp), item))
+            break
+        else:
+          continue
+        break
     except Exception as e:  # pylint:disable=broad-except
       viol.append(V('embedded-raises', 'conversion under options %r raises %s: %s' % (p, type(e).__name__, str(e)[:200]), item))
     finally:
